@@ -54,4 +54,6 @@ Definition eval_closed (fs : list (string * N)) (origin : string) (watches : lis
                                   | Some d => if existsb (fun nt => String.eqb (fst (fst r)) (join d (fst nt))) dir_files && negb (open_dir d)
                                               then ["pruned:" ++ fst (fst r)] else []
                                   | None => [] end) res in
-  show_list (fun x => x) (missing ++ extra).
+  let origin_missing := flat_map (fun nt => let p := join origin (fst nt) in
+                                           if find_file fs' p && negb (listed p origin) then ["missing:" ++ p] else []) origin_files in
+  show_list (fun x => x) (missing ++ origin_missing ++ extra).
